@@ -156,6 +156,10 @@ def main() -> int:
         for combo in itertools.product(parts, repeat=n) if n <= 2 else [tuple(r.choice(parts) for _ in range(n)) for _ in range(60)]:
             names.append(".".join(combo))
     names += odd_spellings()
+    # a whole dotted path inside ONE pair of quotes, upper case in any part
+    whole = [o + ".".join(ps) + c for o, c in (('"', '"'), ("`", "`"), ("[", "]"))
+             for ps in itertools.product(["ab", "Ab"], repeat=3)] + ['"Ab.cd"', '"ab.Cd"', '`Pr.Raw.Src.x`'[:-3] + '`']
+    names += whole
     names = list(dict.fromkeys(names))
     cfgs = ["", "ods", "\"Ods\""]
     rows = []
@@ -189,6 +193,15 @@ def main() -> int:
         if i != m:
             disagreements.append({"suite": "T0-table", "default_schema": cfg, "name": n, "schema_arg": sraw, "alias": alias,
                                   "impl": i, "model": m})
+        if n in whole and "." in n and sraw is None and not i.startswith("ERR"):
+            # S: a quoted identifier keeps its case and loses only the quotes - every part of the path
+            if i.split("|")[0] != n[1:-1]:
+                case = {"suite": "T0-table", "spec": "a quoted identifier keeps its case and loses only the quotes",
+                        "name": n, "default_schema": cfg, "alias": alias, "impl": i, "expected": n[1:-1], "dialect": "-", "spelling": n}
+                if n.startswith("[") and i.split("|")[0] == n.lower():
+                    known_hits.setdefault("K-C16-3", case)      # recorded: brackets around a dotted path
+                else:
+                    spec_failures.append(case)
     srows = []
     for cfg in cfgs:
         for n in [None, ""] + parts + ["<default>", "A.b"]:
